@@ -35,6 +35,12 @@ func init() {
 		}
 		if oList, ok := args[0].(*List); ok {
 			listSelf.Items = append(listSelf.Items, oList.Items...)
+		} else {
+			items, err := SequenceTuple(args[0])
+			if err != nil {
+				return nil, err
+			}
+			listSelf.Items = append(listSelf.Items, items...)
 		}
 		return NoneType{}, nil
 	}, 0, "extend([item])")
